@@ -3,6 +3,7 @@
 description (gamenet/generate/spec/*.json).
 
 Usage: specvec.py <spec.json> <out-file> [--shard I --nshards N]
+       specvec.py --outdir DIR <spec.json>...      (writes DIR/<crate>.vec for each)
 
 Written from the JSON field names and the wire conventions in doc/ (doc/int.md
 for the variable-length integer, doc/teehistorian.md for the UUID namespace);
@@ -26,7 +27,10 @@ expect   ok    decode Ok, no warning, name matches, re-encode identical
          any   the description does not decide (member with a `default`, objects whose size is not validated): no panic only
 payload  messages: hex of the whole message including the id; objects: comma separated i32 words ('-' if none)
 class    coarse class of what was varied (goes into violation signatures): typical, int32, boolean, enum, ...
-tag      free text describing the vector
+tag      free text describing the vector; for class `distinct` it is
+         "fields:<member>=<rendering>;..." : the scalar members in described order with
+         pairwise different values and how Rust's Debug renders them, so that the
+         monitor can see that each value arrived in the member of that name
 
 With --shard/--nshards only the V records with index % N == I are written
 (C records are always complete).
@@ -427,6 +431,39 @@ class Spec:
             return self.nwords(t)
         return 1  # string (NUL), int32_string, data (length)
 
+
+    # ------------------------------------------------------------ distinct values per member
+    def distinct_value(self, t, i):
+        """(value, Debug rendering) of scalar member number i, or None if the
+        member is not a scalar whose rendering is known."""
+        k = t["kind"]
+        opt = False
+        if k == "optional":
+            t = t["inner"]
+            k = t["kind"]
+            opt = True
+        if k not in ("int32", "boolean", "flags", "tick", "tune_param"):
+            return None
+        if k == "boolean":
+            v = i % 2
+            text = "true" if v else "false"
+        else:
+            lo = t.get("min", I32_MIN)
+            hi = t.get("max", I32_MAX)
+            v = self.int_typical(t)
+            for cand in (10 + i, 1 + i, v + i, lo + i, hi - i):
+                if lo <= cand <= hi:
+                    v = cand
+                    break
+            text = "%d" % v
+            if k == "tick":
+                text = "Tick(%d)" % v
+            elif k == "tune_param":
+                text = "TuneParam(%d)" % v
+        if opt:
+            text = "Some(%s)" % text
+        return v, text
+
     # ------------------------------------------------------------ output
     def emit(self, kind, name, expect, cls, ident, payload, tag):
         self.records.append((self.index, kind, name, expect, cls, ident, payload, tag))
@@ -453,6 +490,15 @@ class Spec:
             self.emit(kind, name, expect, cls, ident, (prefix + body).hex(), tag)
 
         put("ok", "typical", "typical", b"".join(base))
+        e = list(base)
+        fields = []
+        for i, (m, t) in enumerate(zip(members, types)):
+            dv = self.distinct_value(t, i)
+            if dv is not None:
+                e[i] = varint(dv[0])
+                fields.append("%s=%s" % (snake(m["name"]), dv[1]))
+        if fields:
+            put("ok", "distinct", "fields:" + ";".join(fields), b"".join(e))
         for i, (m, t) in enumerate(zip(members, types)):
             mname = snake(m["name"])
             for cls, tag, b in self.msg_sweep(t, False):
@@ -587,6 +633,15 @@ class Spec:
                 self.emit("object", name, expect, cls, ident, words_str(words), tag)
 
             put("ok", "typical", "typical", base)
+            w = list(base)
+            fields = []
+            for i, (m, (a, b)) in enumerate(zip(members, spans)):
+                dv = self.distinct_value(m["type"], i)
+                if dv is not None:
+                    w[a:b] = [dv[0]]
+                    fields.append("%s=%s" % (snake(m["name"]), dv[1]))
+            if fields:
+                put("ok", "distinct", "fields:" + ";".join(fields), w)
             for m, (a, b) in zip(members, spans):
                 mname = snake(m["name"])
                 for cls, tag, words in self.words_sweep(m["type"], False):
@@ -642,26 +697,8 @@ def words_str(words):
     return ",".join("%d" % w for w in words) if words else "-"
 
 
-def main(argv):
-    args = argv[1:]
-    shard = None
-    nshards = None
-    pos = []
-    i = 0
-    while i < len(args):
-        if args[i] == "--shard":
-            shard = int(args[i + 1])
-            i += 2
-        elif args[i] == "--nshards":
-            nshards = int(args[i + 1])
-            i += 2
-        else:
-            pos.append(args[i])
-            i += 1
-    if len(pos) != 2 or (shard is None) != (nshards is None):
-        sys.stderr.write(__doc__)
-        return 2
-    spec = Spec(pos[0])
+def write_spec(spec_path, out_path, shard, nshards):
+    spec = Spec(spec_path)
     spec.generate()
     lines = ["S\t%s\t%s\t%d\t%d" % (spec.crate, spec.file, len(spec.codecs), len(spec.records))]
     for c in spec.codecs:
@@ -670,11 +707,52 @@ def main(argv):
         if nshards is not None and r[0] % nshards != shard:
             continue
         lines.append("V\t%d\t%s" % (r[0], "\t".join(r[1:])))
-    tmp = pos[1] + ".tmp.%d" % os.getpid()
+    if out_path is None:
+        return spec.crate, lines
+    tmp = out_path + ".tmp.%d" % os.getpid()
     with open(tmp, "w", encoding="ascii", newline="\n") as f:
         f.write("\n".join(lines))
         f.write("\n")
-    os.replace(tmp, pos[1])
+    os.replace(tmp, out_path)
+    return spec.crate, lines
+
+
+def main(argv):
+    args = argv[1:]
+    shard = None
+    nshards = None
+    outdir = None
+    pos = []
+    i = 0
+    while i < len(args):
+        if args[i] == "--outdir":
+            outdir = args[i + 1]
+            i += 2
+        elif args[i] == "--shard":
+            shard = int(args[i + 1])
+            i += 2
+        elif args[i] == "--nshards":
+            nshards = int(args[i + 1])
+            i += 2
+        else:
+            pos.append(args[i])
+            i += 1
+    if (shard is None) != (nshards is None):
+        sys.stderr.write(__doc__)
+        return 2
+    if outdir is not None:
+        if not pos:
+            sys.stderr.write(__doc__)
+            return 2
+        os.makedirs(outdir, exist_ok=True)
+        for spec_path in pos:
+            crate = Spec(spec_path).crate
+            write_spec(spec_path, os.path.join(outdir, crate + ".vec"), shard, nshards)
+        return 0
+    if len(pos) != 2:
+        sys.stderr.write(__doc__)
+        return 2
+    write_spec(pos[0], pos[1], shard, nshards)
     return 0
 
 
